@@ -206,7 +206,11 @@ fn gen_car(rng: &mut Rng, loaded: bool) -> CarSpec {
 }
 
 pub fn gen_train(rng: &mut Rng, max_cars: u32) -> TrainSpec {
-    let ntypes = rng.usize(1, 3);
+    gen_train_types(rng, max_cars, 3)
+}
+
+pub fn gen_train_types(rng: &mut Rng, max_cars: u32, max_types: usize) -> TrainSpec {
+    let ntypes = rng.usize(if max_types > 3 { 3 } else { 1 }, max_types);
     let mut cars: Vec<CarSpec> = (0..ntypes).map(|i| { let loaded = i == 0 || rng.chance(0.5); gen_car(rng, loaded) }).collect();
     // light trains (few cars per locomotive) are kept at a low rate: they are the shape of open finding
     // C03-light-train-stops-short-of-window and would otherwise dominate the batch
@@ -297,7 +301,8 @@ pub fn generate(rng: &mut Rng, focus: &str, thorough: bool) -> Case {
     let path_len: f64 = route.iter().map(|l| links[*l as usize].length.value).sum();
     // keep trains shorter than the route so that they fit on it at the start
     let max_cars = ((path_len * 0.6 / 18.0) as u32).clamp(6, if thorough { 150 } else { 90 });
-    let mut train = gen_train(rng, max_cars);
+    // for C18 more car types: sums over the per-type map must not depend on its iteration order
+    let mut train = if focus == "C18" { gen_train_types(rng, max_cars, 7) } else { gen_train(rng, max_cars) };
     let set_speed_kind = match focus {
         "C14" => true,
         "C03" => false,
